@@ -104,6 +104,20 @@ def generate(rng, tier, focus):
             subs.append(sub(2, ["hot", 0]))
         acts = pre + subs + mid + [["emit", 0, term]] + post
         cases.append((scn(subjects=[kind], handles=3, script_=acts), {"k": "sub-in-terminal", "how": how, "term": term}))
+    # an observer attached through an operator that ENDS the subscription during the hand-over (take / first / take_while /
+    # element_at over a subject with a stored history): the subject must not go on holding it
+    for _ in range(3000 if thorough else 500):
+        kind = rng.choice([["replay"], ["replay"], ["behavior", 0], ["subject"]])
+        pre = [["emit", 0, n(rng.choice([1, 2, 3]))] for _ in range(rng.randrange(0, 4))]
+        cutop = rng.choice([["take", [rng.choice([1, 2, 3])]], ["first", []], ["take_while", [rng.choice([["lt", 2], ["lt", 3], ["false"]])]],
+                            ["element_at", [rng.choice([1, 2])]], ["contains", [rng.choice([1, 2])]]])
+        acts = pre + [sub(0, ["hot", 0])] + [sub(1, op(cutop[0], cutop[1], ["hot", 0]))]
+        acts += [["emit", 0, n(rng.choice([1, 2, 3]))] for _ in range(rng.randrange(0, 3))]
+        if rng.random() < 0.6:
+            acts.append(["unsub", 0])
+        if rng.random() < 0.3:
+            acts.append(["unsub", 1])
+        cases.append((scn(subjects=[kind], handles=3, script_=acts), {"k": "leave-during-handover"}))
     return cases
 
 
@@ -113,6 +127,14 @@ def judge_impl(cases, obs):
     the same subject twice: the second subscription is made inside the first one's terminal handler and is handed the stored terminal)"""
     out = []
     for i, ((sc, info), ob) in enumerate(zip(cases, obs)):
+        if info.get("k") == "leave-during-handover" and ob["out"] == "ok" and ob["snaps"]:
+            # every subscriber holds exactly one registration while it is subscribed: after the last action the subject holds as
+            # many observers as there are subscriptions still alive
+            _, flags, counts = ob["snaps"][-1]
+            alive = sum(1 for f in flags if str(f) == "1")
+            if int(counts[0]) != alive:
+                out.append((i, "the subject holds %s observer(s) after the last action, but %d subscription(s) are still alive (flags %s): an observer that ended during the hand-over was kept" % (
+                    counts[0], alive, " ".join(str(f) for f in flags))))
         if info.get("k") != "sub-in-terminal" or ob["out"] != "ok":
             continue
         want = sx.dumps(info["term"])
